@@ -255,7 +255,8 @@ def solvestep_contract(name=None):
             # C02
             ('reported_simultaneous_values_are_finite', allj(ENDO, 'isfinite(self.TimeSeries[%s[j][0]][step])' % ENDO)),
             ('every_computed_decorative_value_is_finite_and_appended_once',
-             'all(len(self.TimeSeries[%s[dv_ix[q]][0]]) == step + 1 and isfinite(self.TimeSeries[%s[dv_ix[q]][0]][step]) for q in range(0, len(dv_ix)))' % (DEC, DEC)),
+             'all(len(self.TimeSeries[%s[dv_ix[q]][0]]) == step + 1 and isfinite(self.TimeSeries[%s[dv_ix[q]][0]][step]) for q in range(0, len(dv_ix)))' % (DEC, DEC),
+             {'needs': ['dv_ix']}),
             ('every_decorative_series_gets_one_finite_point',
              allj(DEC, 'len(self.TimeSeries[%s[j][0]]) == step + 1 and isfinite(self.TimeSeries[%s[j][0]][step])' % (DEC, DEC))),
         ],
